@@ -181,9 +181,10 @@ FIRE = [
     ("hea-update-without-validation", "C07", [(HEA, "        self.set_var_params(var_params)\n        var_params = self.var_params\n\n        for param_index in range(self.n_var_params):",
                                                "        self.var_params = var_params\n\n        for param_index in range(self.n_var_params):")], "K6.length-validation"),
     # ---- C08
-    ("deflation-overlap-not-conjugated", "C08", [(VQE, '        for circ in self.deflation_circuits:\n            f_dict, _ = self.backend.simulate(circ + circuit.inverse())\n            energy += self.deflation_coeff * f_dict.get("0"*self.ansatz.circuit.width, 0)\n', '        if self.deflation_circuits:\n            _, sv = self.backend.simulate(circuit, return_statevector=True)\n            for circ in self.deflation_circuits:\n                _, sv_deflate = self.backend.simulate(circ, return_statevector=True)\n                energy += self.deflation_coeff * abs(np.dot(sv_deflate, sv))**2\n')], "K9.deflation"),
-    ("deflation-inverse-first", "C08", [(VQE, "self.backend.simulate(circ + circuit.inverse())", "self.backend.simulate(circuit.inverse() + circ)")], "K9.deflation"),
-    ("deflation-key-one-short", "C08", [(VQE, 'f_dict.get("0"*self.ansatz.circuit.width, 0)', 'f_dict.get("0"*(self.ansatz.circuit.width - 1), 0)')], "K9.deflation"),
+    ("deflation-overlap-not-conjugated", "C08", [(VQE, '        for circ in self.deflation_circuits:\n            overlap_circuit = circ + circuit.inverse()\n            f_dict, _ = self.backend.simulate(overlap_circuit)\n            energy += self.deflation_coeff * f_dict.get("0"*overlap_circuit.width, 0)\n', '        if self.deflation_circuits:\n            _, sv = self.backend.simulate(circuit, return_statevector=True)\n            for circ in self.deflation_circuits:\n                _, sv_deflate = self.backend.simulate(circ, return_statevector=True)\n                energy += self.deflation_coeff * abs(np.dot(sv_deflate, sv))**2\n')], "K9.deflation"),
+    ("deflation-inverse-first", "C08", [(VQE, "            overlap_circuit = circ + circuit.inverse()", "            overlap_circuit = circuit.inverse() + circ")], "K9.deflation"),
+    ("deflation-key-one-short", "C08", [(VQE, 'f_dict.get("0"*overlap_circuit.width, 0)', 'f_dict.get("0"*(overlap_circuit.width - 1), 0)')], "K9.deflation"),
+    ("deflation-key-ansatz-width", "C08", [(VQE, 'f_dict.get("0"*overlap_circuit.width, 0)', 'f_dict.get("0"*self.ansatz.circuit.width, 0)')], "K9.deflation"),
     ("deflation-subtracts", "C08", [(VQE, '            energy += self.deflation_coeff * f_dict.get(', '            energy -= self.deflation_coeff * f_dict.get(')], "K9.deflation"),
     ("energy-without-projective", "C08", [(VQE, "        circuit = self.ansatz.circuit if self.ref_state is None else self.reference_circuit + self.ansatz.circuit\n        if self.projective_circuit:\n            circuit += self.projective_circuit\n        energy =",
                                            "        circuit = self.ansatz.circuit if self.ref_state is None else self.reference_circuit + self.ansatz.circuit\n        energy =")], "K8.circuit-assembly"),
@@ -319,9 +320,10 @@ SILENT = [
     ("uhf-half-spelling", "C04", [(MOL, "two_body_coefficients[up_index(p), down_index(q), down_index(r), up_index(s)] = (two_body_integrals[1][p, q, r, s] / 2.)", "two_body_coefficients[up_index(p), down_index(q), down_index(r), up_index(s)] = 0.5 * two_body_integrals[1][p, q, r, s]")]),
     ("uhf-register-spelling", "C04", [(MOL, "        n_qubits = 2*max(n_orb_a, n_orb_b)", "        n_qubits = max(2*n_orb_a, 2*n_orb_b)")]),
     ("rhf-half-spelling", "C04", [(MOL, "reps.InteractionOperator(core_constant, one_body_coefficients, 1 / 2 * two_body_coefficients)", "reps.InteractionOperator(core_constant, one_body_coefficients, 0.5 * two_body_coefficients)")]),
-    ("deflation-overlap-by-vdot", "C08", [(VQE, '        for circ in self.deflation_circuits:\n            f_dict, _ = self.backend.simulate(circ + circuit.inverse())\n            energy += self.deflation_coeff * f_dict.get("0"*self.ansatz.circuit.width, 0)\n', '        if self.deflation_circuits:\n            _, sv = self.backend.simulate(circuit, return_statevector=True)\n            for circ in self.deflation_circuits:\n                _, sv_deflate = self.backend.simulate(circ, return_statevector=True)\n                energy += self.deflation_coeff * abs(np.vdot(sv_deflate, sv))**2\n')]),
-    ("deflation-other-inverse", "C08", [(VQE, "self.backend.simulate(circ + circuit.inverse())", "self.backend.simulate(circuit + circ.inverse())")]),
-    ("deflation-key-spelling", "C08", [(VQE, 'f_dict.get("0"*self.ansatz.circuit.width, 0)', 'f_dict.get(self.ansatz.circuit.width*"0", 0.)')]),
+    ("deflation-overlap-by-vdot", "C08", [(VQE, '        for circ in self.deflation_circuits:\n            overlap_circuit = circ + circuit.inverse()\n            f_dict, _ = self.backend.simulate(overlap_circuit)\n            energy += self.deflation_coeff * f_dict.get("0"*overlap_circuit.width, 0)\n', '        if self.deflation_circuits:\n            _, sv = self.backend.simulate(circuit, return_statevector=True)\n            for circ in self.deflation_circuits:\n                _, sv_deflate = self.backend.simulate(circ, return_statevector=True)\n                energy += self.deflation_coeff * abs(np.vdot(sv_deflate, sv))**2\n')]),
+    ("deflation-other-inverse", "C08", [(VQE, "            overlap_circuit = circ + circuit.inverse()", "            overlap_circuit = circuit + circ.inverse()")]),
+    ("deflation-key-spelling", "C08", [(VQE, 'f_dict.get("0"*overlap_circuit.width, 0)', 'f_dict.get(overlap_circuit.width*"0", 0.)')]),
+    ("deflation-key-width-of-the-wider-circuit", "C08", [(VQE, 'f_dict.get("0"*overlap_circuit.width, 0)', 'f_dict.get("0"*max(circ.width, circuit.width), 0)')]),
     ("collapse-renormalise-spelling", "C10", [(BACK, "    sv_selected = sv_selected/sqrt_probability  # casting issue if inplace for probability 1\n\n    return sv_selected, sqrt_probability**2", "    probability = sqrt_probability*sqrt_probability\n    return sv_selected/sqrt_probability, probability")]),
     ("collapse-qubit-bound-spelling", "C10", [(BACK, "    if qubit > n_qubits-1:", "    if qubit >= n_qubits:")]),
     ("collapse-reshape-method", "C10", [(BACK, "    sv_selected = np.reshape(statevector.copy(), (before_index_length, 2, after_index_length))", "    sv_selected = statevector.copy().reshape(before_index_length, 2, after_index_length)")]),
